@@ -36,12 +36,17 @@
   `lock_with_retry` (200 non-blocking attempts, 50 ms apart) is the free repetition of `flockEx`.
 
   Three protocols are modelled side by side (`Proto`):
-    current   the code before the C17 repair: commit leaves `self.lock` on the replaced inode,
-              open trusts whatever inode it locked;
-    swapOnly  commit locks the staging description before the rename and adopts that lock
-              afterwards, open unchanged (half a repair — still wrong, see MvProps/C17.lean);
-    repaired  additionally open re-checks, once the lock is granted, that the path still names
-              the locked inode (and that both descriptors of try_open are on it).
+    current   THE CODE AS IT IS: commit leaves `self.lock` on the replaced (unlinked) inode, open
+              trusts whatever inode it locked.  The claimed theorems (MvProps/C17.lean, part I) and
+              the correspondence harness are about this protocol.
+    swapOnly  second model definition (half a repair): commit locks the staging description before
+              the rename and adopts that lock afterwards, open unchanged — still wrong.
+    repaired  second model definition (the repair of /verif/fixes/C17-not-applicable.diff, NOT applied
+              to the repository because tests/lifecycle.rs::create_handles_existing_file opens the
+              file read-only while the writable handle is alive after a commit, i.e. encodes the
+              defective behaviour): additionally open re-checks, once the lock is granted, that the
+              path still names the locked inode (and that both descriptors of try_open are on it).
+              Proved sound in MvProps/C17.lean, part II.
 
   Open file descriptions are named (owner handle, serial): a handle never shares a description
   with another handle (every description comes from that handle's own open(2)), which the naming
